@@ -327,6 +327,10 @@ impl NoLockingPool {
     
     /// Allocate memory block of given size
     pub fn alloc(&mut self, size: usize) -> Result<MemOffset> {
+        if size == 0 {
+            return Err(ZiporaError::invalid_data("Cannot allocate zero bytes"));
+        }
+
         let aligned_size = self.align_up(size);
         
         if aligned_size <= self.config.max_fast_block_size {
@@ -512,6 +516,10 @@ impl MutexBasedPool {
     }
     
     pub fn alloc(&self, size: usize) -> Result<MemOffset> {
+        if size == 0 {
+            return Err(ZiporaError::invalid_data("Cannot allocate zero bytes"));
+        }
+
         let aligned_size = self.align_up(size);
         
         if aligned_size <= self.config.max_fast_block_size {
@@ -666,6 +674,10 @@ impl LockFreePool {
     }
     
     pub fn alloc(&self, size: usize) -> Result<MemOffset> {
+        if size == 0 {
+            return Err(ZiporaError::invalid_data("Cannot allocate zero bytes"));
+        }
+
         let aligned_size = self.align_up(size);
         
         if aligned_size <= self.config.max_fast_block_size {
